@@ -268,3 +268,15 @@ package encoder
 //@   requires dataBits != nil && matrix != nil && gozxing.wfBA(dataBits) && -1 <= maskPattern && maskPattern <= 7
 //@   let m = maskPattern != -1 && decoder.maskISO(maskPattern, arg2, arg1)
 //@   assert call(SetBool,0): arg2 * arg1 >= 0 ==> (bitIndex >= 1 && bitIndex <= dataBits.size && arg3 == (gozxing.bit(dataBits, bitIndex - 1) != m)) || (bitIndex >= dataBits.size && arg3 == m)
+
+// ---------------------------------------------------------------- placement of the format information (8.9, figure 25), C07
+// bit i of the 15-bit format word (i = 0 least significant, i.e. stream position 14-i) goes to the first copy around the top-left
+// finder -- column 8 rows 0..5, 7, 8, then row 8 columns 7, 5..0 -- and to the second copy: row 8 from the right edge for i < 8,
+// column 8 in the bottom seven rows for i >= 8
+//@ func embedTypeInfo(ecLevel decoder.ErrorCorrectionLevel, maskPattern int, matrix *ByteMatrix) (e gozxing.WriterException)
+//@   property C07
+//@   opt check=asserts
+//@   globals matrixUtil_TYPE_INFO_COORDINATES
+//@   requires matrix != nil && 0 <= int(ecLevel) && int(ecLevel) <= 3
+//@   assert call(SetBool,0): 0 <= i && i < 15 && arg3 == gozxing.bit(typeInfoBits, 14 - i) && arg1 == (i <= 7 ? 8 : (i == 8 ? 7 : 14 - i)) && arg2 == (i <= 5 ? i : (i <= 7 ? i + 1 : 8))
+//@   assert call(SetBool,2): 0 <= i && i < 15 && arg3 == gozxing.bit(typeInfoBits, 14 - i) && (i < 8 ? (arg1 == matrix.width - 1 - i && arg2 == 8) : (arg1 == 8 && arg2 == matrix.height - 15 + i))
